@@ -277,6 +277,17 @@ func checkRemoveFirst(p *Prog, r *Report, pc *panicChecker) {
 				}
 			}
 		}
+		if !guard && ha == la && ho == lo+1 {
+			// the index may come from a search helper "index of the first element
+			// with that ID, or -1"
+			if hc, ok := s.lo.(*ssa.Call); ok {
+				if h := hc.Common().StaticCallee(); h != nil && smallHelper(h) {
+					if j, ok := firstMatchIndex(h); ok && j < len(hc.Common().Args) && hc.Common().Args[j] == ssa.Value(f.Params[1]) {
+						guard = true
+					}
+				}
+			}
+		}
 		r.decide(guard, "C19.remove-first", "Remove:"+p.describe(s.call), p.pos(s.call.Pos()), "removes exactly the element whose GetID() equals the argument",
 			"the splice does not remove exactly the element whose ID was compared with the argument")
 		// control leaves the function after the splice
@@ -435,4 +446,84 @@ func checkFieldGuard(p *Prog, r *Report) {
 		})
 		r.floor("field stores in "+name, nStores, 1)
 	}
+}
+
+// firstMatchIndex: h scans a list from index 0 upwards and returns the index
+// of the first element whose GetID() equals its parameter j (every other
+// return is a negative constant).
+func firstMatchIndex(h *ssa.Function) (int, bool) {
+	j := -1
+	n := 0
+	for _, b := range h.Blocks {
+		ret, ok := b.Instrs[len(b.Instrs)-1].(*ssa.Return)
+		if !ok || len(ret.Results) != 1 {
+			continue
+		}
+		if cv, ok := constInt(ret.Results[0]); ok {
+			if cv >= 0 {
+				return 0, false
+			}
+			continue
+		}
+		n++
+		v := ret.Results[0]
+		// the counted loop
+		okLoop := false
+		for _, hd := range h.Blocks {
+			l := naturalLoop(hd)
+			if l == nil || !l[b] && !func() bool {
+				for _, pb := range b.Preds {
+					if l[pb] {
+						return true
+					}
+				}
+				return false
+			}() {
+				continue
+			}
+			if st, sp := inductionOf(v, l); st == 0 && sp == 1 {
+				okLoop = true
+			}
+		}
+		if !okLoop {
+			return 0, false
+		}
+		matched := mustPassEdge(h, b, func(cond ssa.Value, truth bool) bool {
+			bo, ok := cond.(*ssa.BinOp)
+			if !ok || bo.Op != token.EQL || !truth {
+				return false
+			}
+			for _, pr := range [][2]ssa.Value{{bo.X, bo.Y}, {bo.Y, bo.X}} {
+				prm, ok := pr[1].(*ssa.Parameter)
+				if !ok {
+					continue
+				}
+				c, _ := callOf(pr[0])
+				if c == nil || c.Common().StaticCallee() == nil || c.Common().StaticCallee().Name() != "GetID" {
+					continue
+				}
+				ld, ok := c.Common().Args[0].(*ssa.UnOp)
+				if !ok {
+					continue
+				}
+				ia, ok := ld.X.(*ssa.IndexAddr)
+				if !ok || ia.Index != v {
+					continue
+				}
+				for k, q := range h.Params {
+					if q == prm {
+						if j == -1 || j == k {
+							j = k
+							return true
+						}
+					}
+				}
+			}
+			return false
+		})
+		if !matched {
+			return 0, false
+		}
+	}
+	return j, n > 0 && j >= 0
 }
